@@ -14,6 +14,7 @@ values created by the shadowed float()).
 """
 import math
 import os
+import time
 from fractions import Fraction
 
 import numpy as np
@@ -135,6 +136,8 @@ class Engine:
         i = len(self.trace)
         if i >= self.MAX_DECISIONS:
             raise PathEnd('cut', 'max decisions')
+        if getattr(self, 'deadline', None) is not None and time.time() > self.deadline:
+            raise PathEnd('cut', 'time budget of the exploration')
         if i < len(self.prefix):
             v = self.prefix[i]
         else:
@@ -1049,7 +1052,7 @@ def svterm(x):
 
 
 # ----------------------------------------------------------------------------------------
-def explore(fn, max_paths=2000, prefixes=None, feas_timeout_ms=1500, on_path=None):
+def explore(fn, max_paths=2000, prefixes=None, feas_timeout_ms=1500, on_path=None, deadline=None):
     """Re-execution DFS.  fn() runs the harness once under the current engine.
     on_path(engine, status, out, exc) is called at the end of every path (while the
     engine is still installed) and its return value is collected."""
@@ -1057,11 +1060,12 @@ def explore(fn, max_paths=2000, prefixes=None, feas_timeout_ms=1500, on_path=Non
     results = []
     truncated = False
     while stack:
-        if len(results) >= max_paths:
+        if len(results) >= max_paths or (deadline is not None and time.time() > deadline):
             truncated = True
             break
         pre = stack.pop()
         eng = Engine(pre, feas_timeout_ms)
+        eng.deadline = deadline
         set_engine(eng)
         out = None
         exc = None
